@@ -9,6 +9,8 @@ CONSTANTS
   PriorTable = "persist_user_only"
   ViewSpace = "prior_mode"
   DerivedLookup = "derived"
+  ObsMerge = "always"
+  ObsParams <- MCObsParams
   Record = TRUE
   Export = "all"
   Params <- MCParams
